@@ -49,6 +49,33 @@ def _written_names(n, out=None):
     return out
 
 
+def _pushes(n, out=None):
+    """[(receiver name, names of the functions called in the pushed expression)] for every `x.push(e)` in a block"""
+    out = [] if out is None else out
+    if isinstance(n, dict):
+        if n.get('k') == 'mcall' and n.get('m') == 'push' and isinstance(n.get('recv'), dict) and n['recv'].get('k') == 'path' and len(n['recv'].get('segs', [])) == 1:
+            out.append((n['recv']['segs'][0], _called(n.get('args'))))
+        for v in n.values():
+            _pushes(v, out)
+    elif isinstance(n, (list, tuple)):
+        for v in n:
+            _pushes(v, out)
+    return out
+
+
+def _called(n, out=None):
+    out = set() if out is None else out
+    if isinstance(n, dict):
+        if n.get('k') == 'call' and isinstance(n.get('f'), dict) and n['f'].get('k') == 'path':
+            out.add(n['f']['segs'][-1])
+        for v in n.values():
+            _called(v, out)
+    elif isinstance(n, (list, tuple)):
+        for v in n:
+            _called(v, out)
+    return out
+
+
 class MainLoop:
     """Loop contract of `while let Some(instr) = iterator.next()`: the step from an ARBITRARY state on opcode `op`."""
 
@@ -256,8 +283,17 @@ class TakeLoop:
             raise Unsupported('take on a non-iterator')
         nn = interp.zint(n)
         cenv = clo.env
-        names = ('ids', 'plugs', 'stack')
+        # the two vectors are found by role: the one that receives what pop_stack_pattern returns (plugs) and the other one pushed to (ids)
+        pushes = _pushes(clo.node['body'])
+        pl_names = [r for r, calls in pushes if 'pop_stack_pattern' in calls]
+        id_names = [r for r, calls in pushes if 'pop_stack_pattern' not in calls]
+        if len(pl_names) != 1 or len(id_names) != 1 or cenv.lookup('stack') is None:
+            raise Unsupported(f'operand loop: expected one vector of ids and one of plugs, found {id_names} / {pl_names}')
+        N_IDS, N_PLUGS = id_names[0], pl_names[0]
+        names = (N_IDS, N_PLUGS, 'stack')
         cur = {x: interp.deref(cenv.get(x)) for x in names}
+        cur = {'ids': cur[N_IDS], 'plugs': cur[N_PLUGS], 'stack': cur['stack']}
+        real = {'ids': N_IDS, 'plugs': N_PLUGS, 'stack': 'stack'}
         r0, S0 = it.rest.t, cur['stack'].t
         ids0, pl0 = interp.as_idl(cur['ids']), (cur['plugs'].t if isinstance(cur['plugs'], SV) else MLs.mk('lnil'))
         ctx.oblige('loop-entry:ids and plugs start empty', z3.And(ids0 == IDL.mk('inil'), pl0 == MLs.mk('lnil')), kind='loop')
@@ -273,8 +309,8 @@ class TakeLoop:
                 c.set(v)
             else:
                 cenv.set_existing(name, v)
-        for x in names:
-            setv(x, fresh[x])
+        for x in ('ids', 'plugs', 'stack'):
+            setv(real[x], fresh[x])
         it.rest = rest
         ctx.oblige('loop-entry:stack well-formed', tl_all_wf(S0), kind='loop')
         inv = z3.And(k >= 0, k <= nn, il_len(fresh['ids'].t) == k, ml_all_wf(fresh['plugs'].t), tl_all_wf(fresh['stack'].t),
@@ -288,10 +324,10 @@ class TakeLoop:
             nxt = interp.iter_next(it)
             interp.call_closure(clo, [nxt[1]])
             st = interp.deref(cenv.get('stack'))
-            ctx.oblige('loop-step:invariant', z3.And(il_len(interp.as_idl(cenv.get('ids'))) == k + 1,
-                                                      ml_all_wf(interp.deref(cenv.get('plugs')).t), tl_all_wf(st.t),
-                                                      whole == sm.take_acc(nn - (k + 1), it.rest.t, st.t, interp.as_idl(cenv.get('ids')),
-                                                                           interp.deref(cenv.get('plugs')).t)), kind='loop')
+            ctx.oblige('loop-step:invariant', z3.And(il_len(interp.as_idl(cenv.get(N_IDS))) == k + 1,
+                                                      ml_all_wf(interp.deref(cenv.get(N_PLUGS)).t), tl_all_wf(st.t),
+                                                      whole == sm.take_acc(nn - (k + 1), it.rest.t, st.t, interp.as_idl(cenv.get(N_IDS)),
+                                                                           interp.deref(cenv.get(N_PLUGS)).t)), kind='loop')
             raise StepDone()
         ctx.assume(inv)
         ctx.assume(z3.Or(k == nn, IDL.is_('inil', rest.t), nn < 0))
